@@ -2,7 +2,6 @@ package c06
 
 import (
 	"fmt"
-	"os"
 	"sort"
 	"testing"
 
@@ -448,13 +447,7 @@ func runR(c RCase) (out vstat.Outcome, err error) {
 		if err := rel.restrictionOfRef(what, seq); err != nil {
 			return err
 		}
-		if err := rel.completeView(what, seq, held, limit); err != nil {
-			classes["history-view-incomplete"] = true // membership of a history view is not C06's business
-			if os.Getenv("VERIF_DEBUG") != "" {
-				fmt.Println("HISTORY-INCOMPLETE:", err)
-			}
-		}
-		return nil
+		return rel.completeView(what, seq, held, limit)
 	}
 
 	for i, op := range c.Feed {
